@@ -197,6 +197,8 @@ register(PropertySpec(
              "outside a block a decorated class is allocated by the __new__ the undecorated class would use, with the arguments of the call"),
         Rule("KWARGS-NAMESPACE", _lazy("predform", "rule_kwargs_namespace"), 6,
              "the functions that carry the user's field names in **kwargs keep their own parameters out of that namespace (positional-only)"),
+        Rule("STACK-READ-LIVE", _lazy("modes", "rule_stack_read_live"), 1,
+             "(shared with C09) the stack of open query blocks is read at call time only: leaving a block restores exactly the expression context for every reader"),
     ],
     explanation="The mode is a context variable with a closed set of writers, so confinement is a pairing property over "
                 "all exits of the code that writes it. Decided on the CFG with exceptional and generator-suspension "
@@ -225,6 +227,8 @@ register(PropertySpec(
              "(shared with C08) with symbolic mode off the @predicate wrapper and @symbol constructor take the concrete arm, whatever else is active"),
         Rule("EVAL-NO-CONTEXT", _lazy("modes", "rule_eval_no_context"), 5,
              "the mode-off switch of an evaluation also sets the expression context (open `with <query>` blocks) aside, so user code that builds a query during evaluation is not bound to the enclosing block's query"),
+        Rule("STACK-READ-LIVE", _lazy("modes", "rule_stack_read_live"), 1,
+             "the stack of open query blocks is read at call time only (no module-level alias, class attribute or default argument holds the list; no alias is kept beyond a call): an evaluation rebinds the attribute"),
     ],
     explanation="User predicates and @symbol constructors consult the ambient mode; the result is mode-independent iff "
                 "every public entry switches the mode off around every point at which evaluation runs. That is a "
@@ -815,6 +819,8 @@ register(PropertySpec(
              "the truth a mapping decides from a value (fresh or bound already) follows one table; as a value (false rows requested) every row is handed on, falsy or not"),
         Rule("VALUE-FLAG-NOT-READ", _lazy("values", "rule_value_flag_not_read"), 5,
              "the truth flag of an operand that was evaluated as a value is not consulted (falsy values are values)"),
+        Rule("MAPPING-NOT-MEMOISED", _lazy("aggregates", "rule_mapping_not_memoised"), 4,
+             "(shared with C16) the mappings read the user object when they are evaluated"),
     ],
     explanation="An effect property: in which positions may a value's truthiness decide whether a row survives. The "
                 "positions are the evaluation call sites; their role is the resolved dataclass field of the receiver "
@@ -964,6 +970,8 @@ register(PropertySpec(
              "(shared with C13) what flatten spreads is what has __iter__ and is not a string / bytes / class"),
         Rule("BIND-NO-CLOBBER", _lazy("extra", "rule_bind_no_clobber"), 8,
              "(shared with C02) a row handed on is not the dict the operand still being iterated runs under (one row per element of the flattened collection)"),
+        Rule("MAPPING-NOT-MEMOISED", _lazy("aggregates", "rule_mapping_not_memoised"), 4,
+             "the mappings read the user object when they are evaluated: nothing on the path of _apply_mapping_ is memoised per parent"),
     ],
     explanation="UNNEST is 'one row per inner element, all other variables keep the binding that produced it': the "
                 "first half is a path property of one small generator, the second is the BIND-KEEP provenance rule at "
@@ -1206,6 +1214,8 @@ register(PropertySpec(
              "an evaluation method that delegates to another evaluation method of the same node hands the request for false rows on unchanged (entity and set_of sub-queries behave alike on the left of `|`)"),
         Rule("DESCRIPTOR-SIBLINGS", _lazy("ruletree", "rule_descriptor_siblings"), 3,
              "entity and set_of are one implementation: a type test on the kind of a descriptor covers every kind (same test or the arms of its chain), so a rule or query written with set_of takes the paths the same one written with entity takes"),
+        Rule("REPLAY-FALSE-ASKED", _lazy("cacheidx", "rule_replay_false_asked"), 5,
+             "(shared with C05) a sub-query object used in two places: a replay from a result cache hands on the false rows exactly when the evaluation it answers asked for them"),
     ],
     explanation="Decides the structural clauses of the three mechanisms the property is anchored in: (1) a quantifier node in "
                 "the middle of a tree is transparent for truth (same truth table as its conditions, request for false rows passed "
